@@ -5,18 +5,20 @@ import NessaiVerif.Gen.Accounts
 /-
 Line protocol of the accounts area (C12).
 
-`acc run <resetStart 0/1> <freshModel 0/1> <op;op;…>`   ops: `L` launch, `R:e:t:lt` run, `C` checkpoint, `K` kill, `D:d` down
+`acc run <resetStart 0/1> <rearmOnResume 0/1> <freshModel 0/1> <op;op;…>`
+    ops: `L` resume (process start), `E` loop entry, `R:e:t:lt` run, `C` checkpoint, `K` kill, `D:d` down
     → one record per op, joined by `|`:
       `alive,mEvals,mLtime,stime,current,file(evals:ltime:stime:start | -),retE,retT,retL,comE,comT,comL`
 `acc excluded <Class>` / `acc overrides <Class>` / `acc parts <Class>` / `acc dropped <Class>`  → tables of the `__getstate__` in force
-`acc survives <Class> <attr>` → 0/1        `acc resets <Class>` → 0/1/none
+`acc dropped/touched …`, `acc resets <Class>` → 0/1/none, `acc rearm` → 0/1 (does the resume re-arm the start?)
 -/
 namespace NessaiVerif.Driver.Accounts
 open NessaiVerif NessaiVerif.Parse NessaiVerif.Accounts NessaiVerif.AccountsTables
 
 def parseOp? (s : String) : Option Op :=
   match s.splitOn ":" with
-  | ["L"] => some .launch
+  | ["L"] => some .resume
+  | ["E"] => some .enterLoop
   | ["C"] => some .checkpoint
   | ["K"] => some .kill
   | ["D", d] => d.toNat?.map .down
@@ -45,10 +47,12 @@ def runAll (c : Cfg) (ops : List Op) : List String :=
 
 def handle (toks : List String) : String :=
   match toks with
-  | ["run", r, f, ops] =>
-    match parseBool? r, parseBool? f, (ops.splitOn ";").mapM parseOp? with
-    | some r, some f, some ops => "|".intercalate (runAll ⟨r, f⟩ ops)
-    | _, _, _ => "bad-op"
+  | ["run", r, a, f, ops] =>
+    match parseBool? r, parseBool? a, parseBool? f, (ops.splitOn ";").mapM parseOp? with
+    | some r, some a, some f, some ops => "|".intercalate (runAll ⟨r, a, f⟩ ops)
+    | _, _, _, _ => "bad-op"
+  | ["rearm"] => showBool Gen.Accounts.resumeRearmsStart
+  | ["touched", c, f] => showBool (touched Gen.Accounts.tables Gen.Accounts.sites c f)
   | ["excluded", c] =>
     match getstateOwner Gen.Accounts.tables c with
     | some t => t.name ++ " " ++ showList id t.excluded
@@ -62,7 +66,6 @@ def handle (toks : List String) : String :=
     | some t => t.name ++ " " ++ showList id t.tupleParts
     | none => "none"
   | ["dropped", c] => showList id (droppedOf Gen.Accounts.tables c)
-  | ["survives", c, f] => showBool (survives Gen.Accounts.tables Gen.Accounts.sites (c, f))
   | ["resets", c] => showOpt showBool (Gen.Accounts.loopResetsStart.lookup c)
   | _ => "bad-op"
 
